@@ -76,7 +76,8 @@ def observed_names(ctx, desc, lw, case=None):
         if n_real == 1:
             ctx.count("naming:single_well_default")
             ctx.check("single_well_labware_named_after_labware", all(v == desc["name"] for v in defaults.values()), det)
-        elif (desc["kind"] == "plate" and rows > 1) or (desc["kind"] == "trough" and cols > 1 and not desc.get("legacy")):
+        elif (desc["kind"] == "plate" and rows > 1) or (desc["kind"] == "trough" and cols > 1):
+            # (also a trough built as Labware(..., virtual_rows=n): it is a multi-column trough all the same)
             ctx.count("naming:multi_well_default")
             vals = list(defaults.values())
             ctx.check("default_names_distinct_per_well", len(set(vals)) == len(vals), det)
